@@ -39,3 +39,7 @@ func (m *Manager) VerifRegistered(conn *Connection) bool {
 	cur, ok := m.peers[conn.RemoteID]
 	return ok && cur == conn
 }
+
+// VerifSetLastActivity backdates / sets the connection's last-activity
+// timestamp (to reach the keepalive-timeout branch of keepaliveLoop).
+func (c *Connection) VerifSetLastActivity(t time.Time) { c.lastActivity.Store(t.UnixNano()) }
